@@ -230,7 +230,39 @@ pub fn grammar_program(rng: &mut Rng) -> (Program, bool) {
             gs.push(G::Closure(body));
             return G::Fresh(vs, gs);
         }
-        if top && depth > 0 && r < 42 && !*infinite {
+        if depth > 0 && r >= 38 && r < 44 {
+            // committed choice written in surface syntax: bracketed clauses `[head, rest...]` whose
+            // head may be the literal `true` / `false` (heads are deterministic, so the soft-cut
+            // reference is unambiguous; the rest goals may have several answers)
+            let nc = 1 + rng.below(3);
+            let mut cs = vec![];
+            for _ in 0..nc {
+                let head = match rng.below(6) {
+                    0 | 1 => G::Succeed,
+                    2 => G::Fail,
+                    3 => G::Eq(lit(rng), lit(rng)),
+                    _ => {
+                        if scope.is_empty() {
+                            G::Succeed
+                        } else {
+                            G::Eq(T::Var(*rng.pick(scope)), lit(rng))
+                        }
+                    }
+                };
+                let mut c = vec![head];
+                for _ in 0..rng.below(3) {
+                    let x = if scope.is_empty() { lit(rng) } else { T::Var(*rng.pick(scope)) };
+                    c.push(match rng.below(4) {
+                        0 | 1 => G::Call(Rel::Member, vec![x, T::list((0..2 + rng.below(2)).map(|_| lit(rng)).collect())]),
+                        2 => G::Eq(x, lit(rng)),
+                        _ => G::Diseq(x, lit(rng)),
+                    });
+                }
+                cs.push(c);
+            }
+            return if rng.chance(1, 2) { G::Conda(cs) } else { G::Condu(cs) };
+        }
+        if top && depth > 0 && r >= 44 && r < 48 && !*infinite {
             *infinite = true;
             return G::Loop((0..1 + rng.below(2)).map(|_| vec![goal(rng, scope, next, 0, &mut false, false)]).collect());
         }
